@@ -495,6 +495,26 @@ def apply(body, fired):
                     rep = (f'{{\nlet lo__{K}: usize = {s3[0]};\nlet mut c__{K}: usize = {s3[1]};\n'
                            f'while c__{K} > lo__{K}\n{{\nc__{K} -= 1;\nlet {j_} = c__{K};\n{loop_body.strip()}\n}}\n}}')
                     fired.add('R4')
+                elif (names is not None and len(names) == 1 and len(itc) == 1 and itc[0].kind == 'id' and not re.search(r'\b(continue|break)\b', loop_body)
+                      and re.search(r'\blet\s+(mut\s+)?' + re.escape(itc[0].text) + r'\s*:\s*Vec<\s*(i8|i16|i32|i64|u8|u16|u32|u64|usize|isize|bool)\s*>', body)):
+                    # S4v: for v in V where `let V: Vec<prim>` is declared in this body: the Vec is consumed element by element, each element by value (primitive, Copy)
+                    ctx.k += 1
+                    K = ctx.k
+                    V_ = itc[0].text
+                    rep = (f';{{\nlet n__{K}: usize = ({V_}).len();\nlet mut i__{K}: usize = 0;\nwhile i__{K} < n__{K}\n{{\nlet {names[0]} = {V_}[i__{K}];\n{loop_body.strip()}\ni__{K} += 1;\n}}\n}}')
+                    fired.add('R4')
+                elif (len(_code(pat)) == 6 and [x.text for x in _code(pat)][:2] == ['(', '&'] and _code(pat)[2].kind == 'id' and _code(pat)[3].text == ',' and _code(pat)[4].kind == 'id' and _code(pat)[5].text == ')'
+                      and len(itc) >= 5 and ''.join(x.text for x in itc[-4:]) == '.iter_mut()' and all(x.kind == 'id' or x.text == '.' for x in itc[:-4])
+                      and not re.search(r'\b(continue|break)\b', loop_body)):
+                    # S9: for (&K, V) in MAP.iter_mut() { BODY }  (a `(&k, v)` pattern only fits a MAP's iter_mut): each key once, in an order the map does not specify
+                    # (`map_iter_order`, stated by the unit: a duplicate-free sequence of exactly the keys, order unconstrained), the value looked up by key (I-MAP)
+                    ctx.k += 1
+                    K = ctx.k
+                    M_ = ''.join(x.text for x in itc[:-4])
+                    kn = _code(pat)[2].text; vn = _code(pat)[4].text
+                    rep = (f';{{\nlet ord__{K} = map_iter_order(&{M_});\nlet n__{K}: usize = ord__{K}.len();\nlet mut i__{K}: usize = 0;\nwhile i__{K} < n__{K}\n{{\nlet {kn} = ord__{K}[i__{K}];\n'
+                           f'let {vn} = {M_}.get_mut(&{kn}).unwrap();\n{loop_body.strip()}\ni__{K} += 1;\n}}\n}}')
+                    fired.add('R4')
                 elif names is not None and len(itc) == 1 and itc[0].kind == 'id':
                     # S4: for v in S
                     srcs = [Src(itc[0].text, True)]
